@@ -20,8 +20,27 @@ NOISE = "aioesphomeapi._frame_helper.noise."
 BASE = "aioesphomeapi._frame_helper.base."
 PT = "aioesphomeapi._frame_helper.plain_text."
 
-enc_f = z3.Function("aead_enc", ObjS, IntS, BytesS, BytesS)        # ciphertext of (key, nonce, plaintext)
-dec_f = z3.Function("aead_dec", ObjS, IntS, BytesS, BytesS)        # the plaintext a successful decryption of (key, nonce, ciphertext) returns
+enc_f = z3.Function("aead_enc", ObjS, BytesS, BytesS, BytesS)      # ciphertext of (key, 12 nonce bytes, plaintext)
+dec_f = z3.Function("aead_dec", ObjS, BytesS, BytesS, BytesS)      # the plaintext a successful decryption of (key, nonce bytes, ciphertext) returns
+
+
+def _le(size, v):
+    """`size` bytes, little-endian, of the integer term v (struct 'L' / 'Q' with '<')."""
+    return z3.Concat(*[z3.Unit((v / (256 ** i)) % 256) for i in range(size)])
+
+
+def noise_nonce_bytes(n):
+    """The 96-bit ChaChaPoly nonce of the Noise specification (section 12.3): 32 zero bits, then the 64-bit counter little-endian."""
+    return z3.Concat(_le(4, z3.IntVal(0)), _le(8, n))
+
+
+_nonce_f = z3.Function("noise_nonce", IntS, BytesS)
+
+
+def noise_nonce(n):
+    """The same nonce as an opaque term (keeps the sequence reasoning of the callers small); pack_nonce proves that the bytes the
+    code builds are noise_nonce_bytes(n) before it hands out this term."""
+    return _nonce_f(n)
 b64_f = z3.Function("b64decode", StrS, BytesS)
 decode_f = z3.Function("utf8_decode", BytesS, StrS)
 recv_name_f = z3.Function("exc_received_name", ObjS, StrS)
@@ -78,11 +97,11 @@ def install(eng):
 
     @bfn("aead_enc")
     def _aead_enc(eng_, st, args, kwargs):
-        return ok(st, VBytes(enc_f(args[0].e, as_int(args[1]), args[2].e)))
+        return ok(st, VBytes(enc_f(args[0].e, noise_nonce(as_int(args[1])), args[2].e)))
 
     @bfn("aead_dec")
     def _aead_dec(eng_, st, args, kwargs):
-        return ok(st, VBytes(dec_f(args[0].e, as_int(args[1]), args[2].e)))
+        return ok(st, VBytes(dec_f(args[0].e, noise_nonce(as_int(args[1])), args[2].e)))
 
     @bfn("key_of")
     def _key_of(eng_, st, args, kwargs):
@@ -217,7 +236,7 @@ def install(eng):
 
     def aead_encrypt(eng_, st, fv, args, kwargs):
         nonce, data = args[0], args[1]
-        c = enc_f(key_f(fv.e), nonce.n, data.e)
+        c = enc_f(key_f(fv.e), nonce.e, data.e)
         st.fact(z3.Length(c) == z3.Length(data.e) + 16)
         return ok(st, VBytes(c))
     eng.callout_models["AeadEncrypt"] = aead_encrypt
@@ -226,19 +245,30 @@ def install(eng):
         nonce, data = args[0], args[1]
         s_bad = st.clone()
         s_bad.note("decrypt!InvalidTag")
-        p = VBytes(dec_f(key_f(fv.e), nonce.n, data.e))
+        p = VBytes(dec_f(key_f(fv.e), nonce.e, data.e))
         # A-CRYPTO (ideal AEAD): decryption succeeds only for a ciphertext that is the encryption, under the same key and nonce, of the plaintext returned
-        st.assume(data.e == enc_f(key_f(fv.e), nonce.n, p.e))
+        st.assume(data.e == enc_f(key_f(fv.e), nonce.e, p.e))
         st.fact(z3.Length(data.e) == z3.Length(p.e) + 16)
         return [(st, p), (s_bad, Raised(eng_.make_exc(s_bad, InvalidTag, [])))]
     eng.callout_models["AeadDecrypt"] = aead_decrypt
 
-    class VNonce(V):
-        def __init__(self, n):
-            self.n = n
-
     def pack_nonce(eng_, st, args, kwargs):
-        return ok(st, VNonce(as_int(args[0])))
+        """PACK_NONCE = partial(Struct(fmt).pack, *fixed): the bytes are computed from the format the module really uses (read from the
+        live object), so that a nonce laid out differently from the Noise specification is a different nonce for the idealised AEAD."""
+        import struct as _struct
+        pn = N.PACK_NONCE
+        st_obj = getattr(getattr(pn, "func", None), "__self__", None)
+        if not isinstance(st_obj, _struct.Struct) or not st_obj.format.startswith("<") or any(ch not in "BHLQ" for ch in st_obj.format[1:]):
+            raise Unsupported("PACK_NONCE is not partial(Struct('<...').pack, ...) over unsigned little-endian fields")
+        vals = [z3.IntVal(int(a)) for a in pn.args] + [as_int(a) for a in args]
+        sizes = [{"B": 1, "H": 2, "L": 4, "Q": 8}[ch] for ch in st_obj.format[1:]]
+        if len(vals) != len(sizes):
+            return ok(st, eng_.raise_py(st, _struct.error, "pack expected a different number of items"))
+        built = z3.Concat(*[_le(sz, v) for sz, v in zip(sizes, vals)])
+        n = as_int(args[-1])
+        from pyvc.contracts import oblige as _ob
+        _ob(eng_, st, built == noise_nonce_bytes(n), "nonce-bytes-are-32-zero-bits-then-the-counter-little-endian", kind="property")
+        return ok(st, VBytes(noise_nonce(n)))
     eng.builtins[id(N.PACK_NONCE)] = pack_nonce
 
     def a2b(eng_, st, args, kwargs):
